@@ -100,6 +100,8 @@ func probe(name string) string {
 			return second
 		}
 		return "first:" + first
+	case "ptruint":
+		return opBuild(typeByID["NulU8"], "x", "T", "m1 k56 i5")
 	case "uintkind":
 		return opWrap(typeByID["BigU"], "x", "S2 i8000000000000005 i8000000000000005")
 	}
@@ -110,7 +112,7 @@ func probe(name string) string {
 func runHistories(lines [][]string) map[string][]string {
 	out := map[string][]string{}
 	var mu sync.Mutex
-	sem := make(chan struct{}, 8)
+	sem := make(chan struct{}, 6)
 	var wg sync.WaitGroup
 	exe, err := os.Executable()
 	if err != nil {
@@ -124,6 +126,7 @@ func runHistories(lines [][]string) map[string][]string {
 			defer wg.Done()
 			defer func() { <-sem }()
 			cmd := exec.Command(exe, "-child", "-")
+			cmd.Env = append(os.Environ(), "GOMAXPROCS=1", "GOGC=off")
 			cmd.Stdin = strings.NewReader(strings.Join(f[:3], "\t") + "\n")
 			cmd.Stderr = os.Stderr
 			res, err := cmd.Output()
@@ -250,6 +253,7 @@ func generate(rng *lib.Rng, n int, tier string) [][]string {
 	g.add("q1", "probe", "narrowing")
 	g.add("q2", "probe", "uintkind")
 	g.add("q3", "probe", "rewrap")
+	g.add("q4", "probe", "ptruint")
 	corpus(g)
 	var withSchema []*typeEntry
 	for i := range typeTable {
@@ -298,7 +302,7 @@ func generate(rng *lib.Rng, n int, tier string) [][]string {
 		}
 	}
 	// histories
-	nh := n / 4
+	nh := n / 12
 	if nh < 20 {
 		nh = 20
 	}
@@ -359,7 +363,7 @@ func history(g *gen, hid string, withSchema []*typeEntry) {
 	if rng.Bool() {
 		pool = append(pool, withSchema[rng.Intn(len(withSchema))])
 	}
-	n := 3 + rng.Intn(7)
+	n := 3 + rng.Intn(12)
 	var steps []string
 	add := func(op string, e *typeEntry, mode, cdc, lvl, payload string) {
 		steps = append(steps, strings.Join([]string{op, e.id, mode, cdc, lvl, payload}, ","))
